@@ -34,7 +34,7 @@ ASSUMPTIONS = [
 FORD_OPTS = dict(display=["public", "private", "protected"], proc_internals=True)
 
 KINDS = ["variable", "parameter", "type", "subroutine", "function", "generic", "absinterface", "operator",
-         "component", "binding"]
+         "component", "binding", "binding2"]        # binding2: two bindings declared by one statement
 DEFAULTS = [None, "public", "private"]
 POSITIONS = ["early", "late"]
 
@@ -45,7 +45,7 @@ def hows_for(kind):
         hows += [("attr", "public"), ("attr", "private")]
     if kind == "variable":
         hows += [("attr", "protected"), ("stmt_after", "protected"), ("stmt_before", "protected")]
-    if kind in ("component", "binding"):
+    if kind in ("component", "binding", "binding2"):
         return [None, ("attr", "public"), ("attr", "private")]
     hows += [("stmt_before", "public"), ("stmt_before", "private"), ("stmt_after", "public"), ("stmt_after", "private")]
     return hows
@@ -57,7 +57,7 @@ def points():
             for pos in POSITIONS:
                 if default is None and pos == "late":
                     continue
-                if kind in ("component", "binding") and (default == "public" or pos == "late"):
+                if kind in ("component", "binding", "binding2") and (default == "public" or pos == "late"):
                     continue        # a type has only a bare PRIVATE, which must precede the components/bindings
                 for how in hows_for(kind):
                     yield (kind, default, pos, how)
@@ -133,17 +133,21 @@ def build(kind, default, pos, how, ch, with_context=True, excl=()):
                           "binds": [], "finals": [], "doc": None})
         m["default_access"] = ch.choice([None, "private", "public"]) if with_context else None
         m["access_pos"] = "early"
-    elif kind == "binding":
+    elif kind in ("binding", "binding2"):
         impl = {"k": "subroutine", "name": "impl_of_target", "args": ["a"], "prefix": [], "decls": [_var("a", I)],
                 "exec": [], "procs": [], "uses": [], "doc": None}
         impl["decls"][0]["intent"] = "in"
         m["procs"].append(impl)
-        decls.insert(at, {"d": "type", "name": "t_holder", "abstract": False, "extends": None, "access": None,
+        binds = [{"name": tname, "target": "impl_of_target", "generic": False, "deferred": False,
+                  "iface": None, "attrs": ["nopass"], "access": acc, "doc": None}]
+        if kind == "binding2":
+            binds.append(dict(binds[0], name="target_ent2"))
+        # the type's own accessibility is independent of its binding default
+        t_acc = ch.choice([None, "private", "public"]) if with_context else ("private" if default != "private" else "public")
+        decls.insert(at, {"d": "type", "name": "t_holder", "abstract": False, "extends": None, "access": t_acc,
                           "access_how": "attr", "sequence": False, "private_comps": False,
                           "comps": [_var("some_comp", I)], "private_binds": default == "private",
-                          "binds": [{"name": tname, "target": "impl_of_target", "generic": False, "deferred": False,
-                                     "iface": None, "attrs": ["nopass"], "access": acc, "doc": None}],
-                          "finals": [], "doc": None})
+                          "binds": binds, "force_merge": kind == "binding2", "finals": [], "doc": None})
         m["default_access"] = ch.choice([None, "private", "public"]) if with_context else None
         m["access_pos"] = "early"
     gen.strip_private(m)
